@@ -76,6 +76,8 @@ CALLS = {
     "en_skipfoo_jan": P("12 January 2020", languages=["en"], settings={"SKIP_TOKENS": ["foo"]}),
     "parse_en_inst": {"op": "parse", "s": "02/03/2012", "kw": {"languages": ["fr"], "settings_obj": {"PREFER_LOCALE_DATE_ORDER": False}}},
     "hijri": {"op": "hijri", "s": "01-02-1440"},
+    "slot_fr_tuple": {"op": "get_date_tuple", "slot": 3, "ctor": {"languages": ["fr"]}, "s": "02/03/2020 10:00"},
+    "search_en_lang": S("on 3 March 2020 and yesterday", languages=["en"], add_detected_language=True),
     "search_ru": S("с 12 января 2021 по 30 апреля 2021", languages=["ru"]),
     # a thread whose earlier call failed, then the call that is pre-empted (state a failure leaves in the thread)
     "seq_fail_fr_num": {"op": "seq", "ops": [P("12 janvier 2020", languages=["xx"]), P("02/03/2012 10:00", languages=["fr"])]},
@@ -105,7 +107,7 @@ PAIRS_QUICK = [
     ("skip-tokens-or-normalize", "en_skipfoo", "en_skipbar", True), ("skip-tokens-or-normalize", "fr_norm_on", "fr_norm_off", True),
     ("search", "search_fr", "search_de", True), ("search", "search_en", "fr_num", True), ("search", "search_en", "en_tomorrow", True), ("search", "search_fr", "fr_rel", True),
     ("language-or-order", "fr_num", "fr_nolocale", True), ("skip-tokens-or-normalize", "en_skipfoo", "en_plain", True),
-    ("search", "search_en", "search_ru", True),
+    ("search", "search_en", "search_ru", True), ("search", "search_en_lang", "search_fr", True), ("live-instance", "slot_fr_tuple", "tl_num", True),
     ("after-failure", "seq_fail_fr_num", "jalali", True), ("after-failure", "seq_badtype_search", "en_tomorrow", True),
     ("failing-intruder", "fr_num", "search_bad", True), ("failing-intruder", "fr_num", "parse_badlang", True), ("failing-intruder", "search_en", "parse_badtz", True),
     ("settings-instance", "search_en_inst", "en_skipfoo_jan", True), ("settings-instance", "parse_en_inst", "fr_num", True), ("language-or-order", "fr_num", "hijri", True),
